@@ -466,6 +466,26 @@ def vis_child(conn, k, objs, seed):
             pass
 
 
+def vis_relay(conn, k, objs, seed, method):
+    """an intermediate process that creates no shared object itself: it only
+    hands what it received on to a child of its own, which then serves the
+    monitor over the same connection"""
+    import billiard
+    ctx = billiard.get_context(method)
+    p = ctx.Process(target=vis_child, args=(conn, k, objs, seed))
+    try:
+        p.start()
+    except BaseException:
+        # the library refused to hand on objects it had delivered itself
+        try:
+            conn.send(('api_error', 'Process.start(relay)', traceback.format_exc()[-1800:]))
+        except Exception:
+            pass
+        raise
+    conn.close()
+    p.join()
+
+
 def rmw_loop(objs, iters, spin, locked, k, counts):
     """read-modify-write sequences on four shared targets.  locked=True: every
     sequence runs while holding the object's lock (taken in four different
